@@ -18,7 +18,7 @@ TARGET = dict(
            dict(name="ubufshare", harness="harness/C09_ubufshare.c", repo=LIBUPIPE, engine=MEMFIX + ["engine/sched.c"], share=0.75,
                 extra=dict(quick=[["enum", "--template", t, "--bound", "2"] for t in _UB_TEMPLATES],
                            thorough=[["enum", "--template", t, "--bound", "3"] for t in _UB_TEMPLATES]))],
-    quick=dict(cases=120000, budget=30), thorough=dict(cases=1500000, budget=400),
+    quick=dict(cases=120000, budget=30), thorough=dict(cases=700000, budget=400),
 )
 META = dict(
     technique="systematic concurrency testing: deterministic coroutine scheduler over the real urefcount / ubuf_mem_shared / pool code, random / PCT / exhaustively enumerated schedules, destructor and allocator accounting oracle (ASan for the buffer executor)",
